@@ -195,6 +195,12 @@ def run(chk):
                     member = True
                 if norm(r) in (cursor + '.children.indexes',):
                     member = True
+            if isinstance(t, ast.Call) and norm(t.func) == 'any' and len(t.args) == 1 and \
+                    isinstance(t.args[0], (ast.GeneratorExp, ast.ListComp)) and not t.args[0].generators[0].ifs and \
+                    norm(t.args[0].generators[0].iter) == cursor + '.children' and isinstance(t.args[0].elt, ast.Compare) and \
+                    isinstance(t.args[0].elt.ops[0], ast.Eq) and \
+                    {norm(t.args[0].elt.left).split('.')[-1], norm(t.args[0].elt.comparators[0]).split('.')[-1]} == {'name', 'segment_name'}:
+                member = True       # any(c.name == segment_name for c in <cursor>.children)
             if isinstance(t, ast.Compare) and len(t.ops) == 1 and isinstance(t.ops[0], ast.Eq) and \
                     norm(t.left) == cursor + '.repetitions[segment_name][1]' and norm(t.comparators[0]) == '1':
                 card = True
@@ -294,6 +300,11 @@ def run(chk):
            key='C08-A|push-source')
     chk.assume('narrow claim: these are necessary conditions of a sound search; that the tree is the one the structure '
                'prescribes is a run-time result and is not decided')
+
+    chk.rule('C08-T', 'the group structures of a version embed that version\'s own segment definitions (no table module imports '
+                      'another version\'s tables): otherwise the tree found with group-finding on differs from the flat parse')
+    from . import tablerules
+    tablerules.own_package_imports(chk, ix.root, 'C08-T')
 
     # ---- G: group finding is actually in force on the element-side entry point
     chk.rule('C08-G', 'Message.parse_children hands the text to Group.parse_children only for a message whose structure is '
